@@ -9,15 +9,15 @@
 (* C09: an ampycloud action never changes the random state; the result of     *)
 (* run(d, p) is a function of (d, p) alone.                                   *)
 EXTENDS Integers, Sequences, FiniteSets
-AmpyActs == {"run", "demo", "tmpok", "tmpraise"}
+AmpyActs == {"run", "demo", "tmpok", "tmpraise", "gmm"}       \* gmm: layer.ncomp_from_gmm called directly with an explicit seed (0 included)
 UserActs == {"seed", "draw", "gauss"}      \* gauss: np.random.normal draws (an odd count leaves a cached deviate in the state)
 NoResult == -1
 (* property clauses on an observed step: rb / ra = digests of the random state before / after *)
 C09_RngUntouched(e) == e.act \in AmpyActs => e.ra = e.rb
 C09_NoException(e) == e.exc = ""
-C09_SameAsBefore(seen, e) == (e.act \in {"run", "demo"} /\ <<e.d, e.p>> \in DOMAIN seen) => e.res = seen[<<e.d, e.p>>]
-C09_SameAsReference(ref, e) == (e.act \in {"run", "demo"}) => e.res = ref[e.d + 1][e.p + 1]
-Remember(seen, e) == IF e.act \in {"run", "demo"} /\ <<e.d, e.p>> \notin DOMAIN seen
+C09_SameAsBefore(seen, e) == (e.act \in {"run", "demo", "gmm"} /\ <<e.d, e.p>> \in DOMAIN seen) => e.res = seen[<<e.d, e.p>>]
+C09_SameAsReference(ref, e) == (e.act \in {"run", "demo", "gmm"}) => e.res = ref[e.d + 1][e.p + 1]
+Remember(seen, e) == IF e.act \in {"run", "demo", "gmm"} /\ <<e.d, e.p>> \notin DOMAIN seen
                      THEN [k \in DOMAIN seen \cup {<<e.d, e.p>>} |-> IF k = <<e.d, e.p>> THEN e.res ELSE seen[k]]
                      ELSE seen
 =============================================================================
